@@ -12,6 +12,11 @@ R-C08-letter  for each member: the letter it is provably a function of, from (a)
               letter proves; otherwise unknown.  ``ctrl`` / ``Identity`` / ``BasisState`` are table
               exceptions.  A name in two groups of the loop is refuted (the later group silently
               overrides the earlier one in ``commutation_map``), except ``Identity``.
+
+R-C08-frozen  the group tables (module-level set / list displays of names) and every alias of them — loop variables
+              running over the groups, and the values of mappings such as ``commutation_map`` that store the groups by
+              reference — are never mutated in the module: no augmented assignment, no mutating method, no item store.
+              (``commutation_map[op] |= group`` would silently merge one group into another *table*.)
 """
 
 from __future__ import annotations
@@ -20,9 +25,10 @@ import ast
 
 from .. import opfacts as F
 from .. import trigdom as T
-from ..core import AnalysisError, Report
+from ..core import AnalysisError, Report, norm
 
 RULE = "R-C08-letter"
+FROZEN = "R-C08-frozen"
 IC = "pennylane/ops/functions/is_commuting.py"
 LETTER_GROUPS = {"PAULIX_GROUP": "X", "PAULIY_GROUP": "Y", "PAULIZ_GROUP": "Z"}
 
@@ -48,7 +54,7 @@ def groups_of_the_map(ix):
             continue
         g = n.target.id
         stores = [s for s in ast.walk(n) if isinstance(s, ast.Assign) and len(s.targets) == 1 and isinstance(s.targets[0], ast.Subscript)
-                  and isinstance(s.value, ast.Name) and s.value.id == g]
+                  and any(isinstance(x, ast.Name) and x.id == g for x in ast.walk(s.value))]
         if stores:
             loops.append(n)
     if len(loops) != 1:
@@ -128,6 +134,254 @@ def _conflicts(letters, group_letter):
     return False
 
 
+# ------------------------------------------------------------------------------------------ frozen
+MUTATORS = {"add", "update", "discard", "remove", "clear", "pop", "append", "extend", "insert", "sort", "reverse", "difference_update",
+            "intersection_update", "symmetric_difference_update", "__ior__", "__iand__", "__isub__", "__ixor__", "__iadd__", "setdefault"}
+VALUE_READS = {"get", "setdefault", "pop"}  # mapping methods that hand out a stored value
+
+
+def group_tables(module):
+    """module-level names bound (once) to a set / list / tuple display of string literals"""
+    out = {}
+    for name, vals in module.all_assigns.items():
+        if len(vals) == 1 and isinstance(vals[0], (ast.Set, ast.List)) and vals[0].elts and all(
+                isinstance(x, ast.Constant) and isinstance(x.value, str) for x in vals[0].elts):
+            out[name] = vals[0]
+    return out
+
+
+class _Frozen:
+    """flow-sensitive (structured, strong updates) may-alias reading of one module: which names / mapping values may be one
+    of the group tables *by reference*, and every statement that mutates such a value"""
+
+    def __init__(self, module, tables):
+        self.module, self.tables = module, tables
+        self.holders = {}  # mapping name -> set of group names its values may alias
+        self.findings = {}  # id(node) -> (scope, node, groups, how)
+
+    # -- alias evaluation --------------------------------------------------------------------
+    def alias(self, e, env):
+        """set of group tables the value of ``e`` may be (the same object as)"""
+        if isinstance(e, ast.Name):
+            return set(env.get(e.id, ()))
+        if isinstance(e, ast.Subscript):
+            if isinstance(e.value, ast.Name) and e.value.id in self.holders and not env.get(e.value.id):
+                return set(self.holders[e.value.id])
+            return set()
+        if isinstance(e, ast.Call) and isinstance(e.func, ast.Attribute) and e.func.attr in VALUE_READS:
+            v = e.func.value
+            if isinstance(v, ast.Name) and v.id in self.holders:
+                out = set(self.holders[v.id])
+                for a in e.args[1:]:
+                    out |= self.alias(a, env)
+                return out
+            return set()
+        if isinstance(e, ast.IfExp):
+            return self.alias(e.body, env) | self.alias(e.orelse, env)
+        if isinstance(e, ast.BoolOp):
+            return set().union(*[self.alias(v, env) for v in e.values])
+        if isinstance(e, ast.NamedExpr):
+            return self.alias(e.value, env)
+        return set()  # calls (set(g), g.copy()), binary operators, displays, comprehensions: a fresh object
+
+    def elements_alias(self, it, env):
+        """what a loop variable over ``it`` may alias"""
+        if isinstance(it, (ast.List, ast.Tuple, ast.Set)):
+            return set().union(*[self.alias(x, env) for x in it.elts]) if it.elts else set()
+        if isinstance(it, ast.Call) and isinstance(it.func, ast.Attribute) and it.func.attr == "values" and isinstance(it.func.value, ast.Name):
+            return set(self.holders.get(it.func.value.id, ()))
+        return set()
+
+    def bind(self, target, groups, env):
+        if isinstance(target, ast.Name):
+            env[target.id] = set(groups)
+        elif isinstance(target, (ast.Tuple, ast.List)):
+            for t in target.elts:
+                self.bind(t.value if isinstance(t, ast.Starred) else t, (), env)
+
+    def hold(self, name, groups):
+        if groups:
+            self.holders.setdefault(name, set()).update(groups)
+
+    # -- mutation detection ------------------------------------------------------------------
+    def flag(self, scope, node, groups, how):
+        if groups:
+            self.findings[id(node)] = (scope, node, sorted(groups), how)
+
+    def scan_calls(self, node, env, scope):
+        for n in ast.walk(node):
+            if isinstance(n, (ast.FunctionDef, ast.AsyncFunctionDef, ast.Lambda)) and n is not node:
+                continue
+            if isinstance(n, ast.Call) and isinstance(n.func, ast.Attribute) and n.func.attr in MUTATORS:
+                g = self.alias(n.func.value, env)
+                if g and not (n.func.attr in ("setdefault", "pop") and isinstance(n.func.value, ast.Name) and n.func.value.id in self.holders):
+                    self.flag(scope, n, g, f"calls the mutating method .{n.func.attr}() on")
+            if isinstance(n, ast.Call) and isinstance(n.func, ast.Attribute) and n.func.attr == "setdefault" and isinstance(n.func.value, ast.Name) and len(n.args) == 2:
+                self.hold(n.func.value.id, self.alias(n.args[1], env))
+            if isinstance(n, ast.DictComp):
+                cenv = dict(env)
+                for gen in n.generators:
+                    self.bind(gen.target, self.elements_alias(gen.iter, cenv), cenv)
+                n._c08_value_alias = self.alias(n.value, cenv)
+
+    def store_target(self, t, env, scope, st, aug=False):
+        """a Subscript / Attribute store: item store into an aliased group?"""
+        if isinstance(t, ast.Subscript):
+            g = self.alias(t.value, env)
+            if g:
+                self.flag(scope, st, g, "stores an item into")
+            elif aug:
+                g = self.alias(t, env)
+                self.flag(scope, st, g, "applies an in-place augmented assignment to a mapping value that is")
+
+    # -- statements ----------------------------------------------------------------------------
+    def block(self, stmts, env, scope, defs):
+        for st in stmts:
+            env = self.stmt(st, env, scope, defs)
+        return env
+
+    def join(self, a, b):
+        out = {}
+        for k in set(a) | set(b):
+            out[k] = set(a.get(k, ())) | set(b.get(k, ()))
+        return out
+
+    def stmt(self, st, env, scope, defs):
+        if isinstance(st, (ast.FunctionDef, ast.AsyncFunctionDef)):
+            defs.append(st)
+            env = dict(env)
+            env[st.name] = set()
+            return env
+        if isinstance(st, ast.ClassDef):
+            return env
+        if isinstance(st, ast.Assign):
+            self.scan_calls(st.value, env, scope)
+            g = self.alias(st.value, env)
+            env = dict(env)
+            for t in st.targets:
+                if isinstance(t, ast.Name):
+                    env[t.id] = set(g)
+                    if isinstance(st.value, ast.Dict):
+                        self.hold(t.id, set().union(*[self.alias(v, env) for v in st.value.values if v is not None]) if st.value.values else set())
+                    elif isinstance(st.value, ast.DictComp):
+                        self.hold(t.id, getattr(st.value, "_c08_value_alias", set()))
+                    elif isinstance(st.value, ast.Name) and st.value.id in self.holders:
+                        self.hold(t.id, self.holders[st.value.id])
+                elif isinstance(t, ast.Subscript):
+                    self.scan_calls(t, env, scope)
+                    if isinstance(t.value, ast.Name) and not self.alias(t.value, env):
+                        self.hold(t.value.id, g)  # M[k] = <group>: M now hands the group out by reference
+                    else:
+                        self.store_target(t, env, scope, st)
+                else:
+                    self.bind(t, (), env)
+            return env
+        if isinstance(st, ast.AnnAssign):
+            if st.value is not None:
+                self.scan_calls(st.value, env, scope)
+                if isinstance(st.target, ast.Name):
+                    env = dict(env)
+                    env[st.target.id] = self.alias(st.value, env)
+            return env
+        if isinstance(st, ast.AugAssign):
+            self.scan_calls(st.value, env, scope)
+            if isinstance(st.target, ast.Name):
+                self.flag(scope, st, self.alias(st.target, env), "applies an in-place augmented assignment to")
+            else:
+                self.store_target(st.target, env, scope, st, aug=True)
+            return env
+        if isinstance(st, ast.Delete):
+            for t in st.targets:
+                if isinstance(t, ast.Subscript):
+                    self.flag(scope, st, self.alias(t.value, env), "deletes an item of")
+            return env
+        if isinstance(st, (ast.For, ast.AsyncFor)):
+            self.scan_calls(st.iter, env, scope)
+            for _ in range(2):  # second pass: holders / bindings discovered in the body reach its beginning
+                benv = dict(env)
+                self.bind(st.target, self.elements_alias(st.iter, env), benv)
+                out = self.block(st.body, benv, scope, [] if _ else defs)
+                env = self.join(env, out)
+            return self.join(env, self.block(st.orelse, dict(env), scope, defs))
+        if isinstance(st, ast.While):
+            self.scan_calls(st.test, env, scope)
+            for _ in range(2):
+                env = self.join(env, self.block(st.body, dict(env), scope, [] if _ else defs))
+            return self.join(env, self.block(st.orelse, dict(env), scope, defs))
+        if isinstance(st, ast.If):
+            self.scan_calls(st.test, env, scope)
+            return self.join(self.block(st.body, dict(env), scope, defs), self.block(st.orelse, dict(env), scope, defs))
+        if isinstance(st, (ast.With, ast.AsyncWith)):
+            env = dict(env)
+            for it in st.items:
+                self.scan_calls(it.context_expr, env, scope)
+                if it.optional_vars is not None:
+                    self.bind(it.optional_vars, (), env)
+            return self.block(st.body, env, scope, defs)
+        if isinstance(st, ast.Try):
+            out = self.block(st.body, dict(env), scope, defs)
+            env = self.join(env, out)
+            for h in st.handlers:
+                env = self.join(env, self.block(h.body, dict(env), scope, defs))
+            env = self.join(env, self.block(st.orelse, dict(env), scope, defs))
+            return self.block(st.finalbody, env, scope, defs)
+        if isinstance(st, ast.Match):
+            self.scan_calls(st.subject, env, scope)
+            out = dict(env)
+            for c in st.cases:
+                out = self.join(out, self.block(c.body, dict(env), scope, defs))
+            return out
+        self.scan_calls(st, env, scope)  # Expr, Return, Raise, Assert, ...
+        return env
+
+    def function(self, fn, env, scope):
+        env = dict(env)
+        a = fn.args
+        for x in a.posonlyargs + a.args + a.kwonlyargs + ([a.vararg] if a.vararg else []) + ([a.kwarg] if a.kwarg else []):
+            env[x.arg] = set()
+        defs = []
+        for _ in range(2):
+            out = self.block(fn.body, dict(env), scope, [] if _ else defs)
+        for d in defs:
+            self.function(d, out, f"{scope}.<locals>.{d.name}")
+
+    def run(self):
+        env = {g: {g} for g in self.tables}
+        defs = []
+        for _ in range(2):
+            out = self.block(self.module.tree.body, dict(env), "<module>", [] if _ else defs)
+        for g in self.tables:  # a module-level rebinding does not hide the table from functions defined before it
+            out.setdefault(g, set()).add(g)
+        for d in defs:
+            self.function(d, out, d.name)
+        return self
+
+
+def check_frozen(ix, rep):
+    m = ix.module(IC)
+    tables = group_tables(m)
+    fz = _Frozen(m, tables).run()
+    mutated = {}
+    for scope, node, groups, how in fz.findings.values():
+        for g in groups:
+            mutated.setdefault(g, []).append(scope)
+        held = sorted(h for h, gs in fz.holders.items() if set(gs) & set(groups))
+        rep.refuted(FROZEN, IC, scope, node,
+                    f"`{norm(node)[:90]}` in {scope} {how} an object that may be the module-level table {' / '.join(groups)} itself"
+                    + (f" (the mapping{'s' if len(held) > 1 else ''} {', '.join(held)} store{'' if len(held) > 1 else 's'} the groups by reference, "
+                       f"without a copy)" if held else "")
+                    + ": the table is changed in place, so every later lookup — including the entries of other names that share the same set — sees "
+                      "members that the source of the table does not list (e.g. the Y group merged into PAULIX_GROUP through the doubly listed "
+                      "'Identity' makes is_commuting(RX, RY) answer True)", tables=groups)
+    for g in sorted(tables):
+        if g not in mutated:
+            rep.proved(FROZEN, f"{IC}:{g}", "never mutated through its name, an alias or a mapping value anywhere in the module")
+    for h, gs in sorted(fz.holders.items()):
+        if not any(set(gs) & set(groups) for _s, _n, groups, _h in fz.findings.values()):
+            rep.proved(FROZEN, f"{IC}:{h}[...]", f"stores {', '.join(sorted(gs))} by reference; its values are only read")
+    return len(tables), len(fz.holders)
+
+
 def check(ctx):
     ix = ctx.index
     rep = Report("C08", "soundness of the commutation lookup table of ops/functions/is_commuting.py: every member of a Pauli group is a function "
@@ -137,6 +391,12 @@ def check(ctx):
              "a*1 + b*P; evidence for another letter => refuted, evidence for the group's letter and none against => proved, else unknown; "
              "ctrl / Identity / BasisState are table exceptions with reasons; a name in two groups of the commutation_map loop is refuted "
              "(later group overrides), except Identity")
+    rep.rule(FROZEN, "the group tables (module-level set / list displays of string literals) and every alias of them (plain rebinding, loop "
+             "variables over a display of groups, values of mappings assigned from such aliases: commutation_map) are never mutated anywhere in "
+             "the module: no augmented assignment, no .add/.update/.discard/.remove/.clear/.pop/.append/.extend/..., no item store or delete; "
+             "a fresh object (set(g), g.copy(), g | other) is not an alias")
+    rep.assume("calls and binary operators return fresh objects; only the module ops/functions/is_commuting.py can reach the tables by reference "
+               "(the mapping is hidden in a closure)")
     rep.assume("an operator with generator G and one parameter is exp(i p G); distinct Pauli words are linearly independent, so a generator "
                "term with a non-zero literal coefficient carrying another letter on a wire does not commute with the group's Pauli on that wire")
     rep.assume("E4 reads literal matrices exactly; NotDiagonal means an off-diagonal entry is certainly non-zero")
@@ -202,6 +462,12 @@ def check(ctx):
             else:
                 rep.unknown(RULE, where, "no structural evidence for any letter (no one-parameter generator, no pauli_rep literal, matrix shape unknown)")
 
+    n_tables, n_holders = check_frozen(ix, rep)
+    rep.floor("module-level group tables (displays of names)", n_tables, 8)
+    filled = {norm(st.targets[0].value) for n in ast.walk(f.node) if isinstance(n, ast.For) for st in ast.walk(n)
+              if isinstance(st, ast.Assign) and len(st.targets) == 1 and isinstance(st.targets[0], ast.Subscript)}
+    rep.floor("mappings filled from the group tables (by reference or by copy)", len(filled), 1)
+    rep.note(f"mappings holding group tables by reference: {n_holders}")
     rep.floor("groups in the commutation_map loop", len(groups), 5)
     rep.floor("names checked for double membership", n_dup_checked, 24)
     rep.floor("members of the three Pauli-letter groups", n_members, 19)
